@@ -55,6 +55,21 @@ def gen_family(rng, stats, nmax=4, allow_empty=True, dtype_choices=('f', 'f', 'i
         a = rand_array(rng, dims=ds, lens=[len(l) for l in labels], dtype=rng.choice(dtype_choices), attrs=rng.random() < 0.3)
         a['labels'] = labels; a['axdtype'] = kinds
         arrays.append(a)
+    if narr >= 3 and rng.random() < 0.25:
+        # three or more inputs sorted the same way along one dimension, several of them with ONE label: the n-ary union is a
+        # fold of pairwise unions, and two one-label axes met first have no direction of their own
+        d = pool[0]; k, u = uni[d]
+        if k != 'O' or True:
+            chosen = rng.sample(u, min(len(u), narr + 1)); down = rng.random() < 0.5
+            parts = [[chosen[0], chosen[1]]] + [[x] for x in chosen[2:narr + 1]]
+            rng.shuffle(parts)
+            arrays = []
+            for l in parts[:narr]:
+                l = sorted(l, reverse=down)
+                a = rand_array(rng, dims=[d], lens=[len(l)], dtype='f')
+                a['labels'] = [l]; a['axdtype'] = [k]
+                arrays.append(a)
+            stats['family']['same direction with one-label axes'] += 1
     stats['n_arrays'][narr] += 1
     return arrays, pool
 
